@@ -103,8 +103,22 @@ def scratch_root() -> str:
     return _SCRATCH_ROOT
 
 
+def enter_private_cwd() -> None:
+    """Worker / replay / warm-up processes work from a directory of their own under the scratch root: library code
+    (broken or not) that writes under a relative or default name must never write into /verif."""
+    global _HOME_CWD
+    d = os.path.join(scratch_root(), "cwd")
+    os.makedirs(d, exist_ok=True)
+    os.chdir(d)
+    _HOME_CWD = d
+
+
 def cleanup_scratch() -> None:
     global _SCRATCH_ROOT
+    try:
+        os.chdir("/")
+    except OSError:
+        pass
     if _SCRATCH_ROOT and os.path.isdir(_SCRATCH_ROOT):
         shutil.rmtree(_SCRATCH_ROOT, ignore_errors=True)
     _SCRATCH_ROOT = None
